@@ -48,6 +48,7 @@ func init() {
 }
 
 func runC18(c *an.Ctx) {
+	c08paramScope(c, "C18.once")
 	p := c.P
 	info := p.Jet.TypesInfo
 	callsOwn := func(f *an.Fn, callee string) bool { return len(p.CallsIn(f, callee)) > 0 }
